@@ -155,10 +155,17 @@ def dict_update(ex, p, recv, args, kw, ln):
     if not (isinstance(arg, Ref) and p.obj(arg).cls == "record" and len(p.obj(arg).f["items"]) == 1):
         raise Unsupported("dict.update with something else than a one-entry literal")
     ((key, val),) = p.obj(arg).f["items"].items()
-    if not (isinstance(val, Ref) and "items" in p.obj(val).f and len(p.obj(val).f["items"]) == 2 and isinstance(p.obj(val).f["items"][0], Ref)):
-        raise Unsupported("dict value is not [node, history]")
     q = p.fork()
-    node = q.obj(val).f["items"][0]
+    if isinstance(val, Opt) or val is None:
+        val = ex.unwrap(val, q, "node stored in the prefix index", ln)
+    if isinstance(val, Ref) and q.obj(val).cls == "LRUTrieNode":
+        node = val
+        q.w["__valid_shape"] = "node"
+    elif isinstance(val, Ref) and "items" in q.obj(val).f and len(q.obj(val).f["items"]) == 2 and isinstance(q.obj(val).f["items"][0], Ref):
+        node = q.obj(val).f["items"][0]
+        q.w["__valid_shape"] = "pair"
+    else:
+        raise Unsupported("dict value is neither a node nor [node, history]")
     c = _call_of(q, node)
     n = q.w["__valid_n"]
     ex.oblige(q, "free-prefix-index:keyed-by-the-prefix-of-that-node", to_z3(key) == z3.Select(q.w["__al_lru"], c), ln, "post")
@@ -186,6 +193,8 @@ def free_items_iter(ex, p, it, ln):
         return q, SeqView(n, lambda i: z3.Select(q.w["__al_lru"], z3.Select(vc, i)))
     ck = fresh("entry_call", INT)
     node = q.new_obj("LRUTrieNode", {"__abstract": True, "__call": ck})
+    if q.w.get("__valid_shape", "pair") == "node":
+        return q, SeqView(n, lambda i: (z3.Select(q.w["__al_lru"], ck), node), facts=lambda i: [ck == z3.Select(vc, i)])
     hist = q.new_obj("LRUTrieWalkHistory", {"__abstract": True})
     pair = q.new_obj("list", {"items": [node, hist]})
     return q, SeqView(n, lambda i: (z3.Select(q.w["__al_lru"], ck), pair), facts=lambda i: [ck == z3.Select(vc, i)])
@@ -376,14 +385,167 @@ class CreateWebentityPublic(Contract):
             ex.oblige(p1, "report-counts-no-page", to_z3(r.f["nb_created_pages"]) == 0, None)
 
 
+# ---------------------------------------------------------------------------- delete_webentity (checked mode)
+FOUND = z3.Function("PREFIX_FOUND", INT, BOOL)
+WE_OF = z3.Function("WEBENTITY_OF_PREFIX_NODE", INT, INT)
+WEID = z3.Int("weid")
+
+
+class LruNodeCallee(Contract):
+    """LRUTrie.lru_node (contracts/trie.py): the k-th lookup of the request returns the
+    node spelling the k-th prefix, or None when it is not stored (PREFIX_FOUND(k))"""
+
+    qual = "LRUTrie.lru_node"
+
+    def apply(self, ex, p, recv, args, kw, ln):
+        q = p.fork()
+        k = q.w["__al_n"]
+        node = q.new_obj("LRUTrieNode", {"__abstract": True, "__call": k})
+        q.w["__al_lru"] = z3.Store(q.w["__al_lru"], k, to_z3(args[0]))
+        q.w["__al_n"] = z3.simplify(k + 1)
+        q.mut += 1
+        return [(q, Opt(z3.Not(FOUND(k)), node))]
+
+
+class WebentityCallee(Contract):
+    qual = "LRUTrieNode.webentity"
+
+    def apply(self, ex, p, recv, args, kw, ln):
+        return [(p, WE_OF(_call_of(p, recv)))]
+
+
+class UnsetWebentityCallee(Contract):
+    qual = "LRUTrieNode.unset_webentity"
+
+    def apply(self, ex, p, recv, args, kw, ln):
+        q = p.fork()
+        c = _call_of(q, recv)
+        ex.oblige(q, "node-protocol:unset-on-a-node-at-rest", q.w["__phase"] == 0, ln, "post")
+        q.w["__phase"] = z3.IntVal(2)
+        q.w["__cur"] = c
+        q.w["__att"] = z3.Store(q.w["__att"], c, z3.IntVal(0))
+        q.mut += 1
+        return [(q, None)]
+
+
+def _owned(j):
+    return z3.And(FOUND(j), TAKEN(j), WE_OF(j) == WEID)
+
+
+def del_scan_inv(ex, p):
+    idx = [k for k in p.env if k.startswith("__i")][0]
+    i = to_z3(p.env[idx])
+    j, e = z3.Ints("j e")
+    return [
+        ("one-lookup-per-prefix-so-far", p.w["__al_n"] == i),
+        ("lookups-carry-the-given-prefixes", z3.ForAll([j], z3.Implies(z3.And(j >= 0, j < i), z3.Select(p.w["__al_lru"], j) == PFX(j)))),
+        ("every-prefix-so-far-is-stored-and-owned-by-the-webentity", z3.ForAll([j], z3.Implies(z3.And(j >= 0, j < i), _owned(j)))),
+        ("every-prefix-so-far-is-indexed", z3.And(p.w["__valid_n"] == i, z3.ForAll([e], z3.Implies(z3.And(e >= 0, e < i), z3.Select(p.w["__valid_call"], e) == e)))),
+        ("nothing-written-while-checking", z3.And(p.w["__writes"] == 0, p.w["__phase"] == 0)),
+    ]
+
+
+def del_scan_havoc(ex, p):
+    o = p.obj(p.env["prefix_index"])
+    o.f["n"] = p.w["__valid_n"]
+    p.w["__valid_shape"] = "node"
+    if "node" in p.env:
+        p.env["node"] = Opt(fresh("stale_none", BOOL), p.new_obj("LRUTrieNode", {"__abstract": True, "__call": fresh("stale_call", INT)}))
+
+
+def del_unset_inv(ex, p):
+    idx = sorted([k for k in p.env if k.startswith("__i")], key=lambda k: int(k[3:]))[-1]
+    e = to_z3(p.env[idx])
+    e2 = z3.Int("e2")
+    n = NP
+    return [
+        ("one-write-per-prefix-so-far", z3.And(p.w["__writes"] == e, p.w["__phase"] == 0)),
+        ("prefixes-detached-so-far", z3.ForAll([e2], z3.Implies(z3.And(e2 >= 0, e2 < e), z3.Select(p.w["__att"], e2) == 0))),
+        ("check-results-kept", z3.And(p.w["__al_n"] == n, p.w["__valid_n"] == n, z3.ForAll([e2], z3.Implies(z3.And(e2 >= 0, e2 < n), z3.Select(p.w["__valid_call"], e2) == e2)))),
+    ]
+
+
+def del_unset_havoc(ex, p):
+    if "node" in p.env:
+        p.env["node"] = p.new_obj("LRUTrieNode", {"__abstract": True, "__call": fresh("stale_call", INT)})
+
+
+class DeleteWebentity(Contract):
+    """Traph.delete_webentity(weid, prefixes) in its default, checked mode (prefixes
+    pairwise distinct): it raises the library's error - before writing anything - iff
+    some given prefix is not stored or not attached to that webentity; otherwise every
+    given prefix is detached (unset, then written) and nothing else is written."""
+
+    qual = "Traph.delete_webentity"
+
+    def setups(self, ex):
+        p = Path()
+        for ax in axioms():
+            p.assume(ax)
+        mk_world(p)
+        p.assume(z3.And(WEID >= 1, WEID < 2 ** 32))
+        prefixes = p.new_obj("list", {"len": NP, "elem": lambda i: PFX(i)})
+        trie = p.new_obj("LRUTrie", {})
+        t = p.new_obj("Traph", {"lru_trie": trie, "encoding": "utf-8"})
+        yield p, t, [WEID, prefixes], {}, "checked"
+
+    def check(self, ex, p0, res, tag):
+        j = z3.Int("j")
+        n = NP
+        for p1, kind, val in res:
+            if kind == "raise":
+                if val[0] != "TraphException":
+                    ex.oblige(p1, "raises-only-the-library's-error(%s)" % val[0], False, val[1])
+                    continue
+                k = p1.w["__al_n"] - 1
+                ex.oblige(p1, "refused=>the-prefix-just-looked-up-is-not-stored-or-not-owned", z3.And(k >= 0, k < n, z3.Not(_owned(k))), val[1])
+                ex.oblige(p1, "refused=>nothing-written", p1.w["__writes"] == 0, val[1])
+                continue
+            ex.oblige(p1, "accepted=>every-prefix-was-stored-and-owned", z3.ForAll([j], z3.Implies(z3.And(j >= 0, j < n), _owned(j))), None)
+            ex.oblige(p1, "every-prefix-detached-and-written-once", z3.And(p1.w["__writes"] == n, p1.w["__phase"] == 0, z3.ForAll([j], z3.Implies(z3.And(j >= 0, j < n), z3.Select(p1.w["__att"], j) == 0))), None)
+            ex.oblige(p1, "returns-True", to_z3(ex.truth(val, p1)), None)
+
+
+class WebentityByPrefix(Contract):
+    """Traph.get_webentity_by_prefix(prefix): the webentity attached to exactly that
+    prefix; the library's error iff the prefix is not stored or carries none; one
+    lookup, nothing written"""
+
+    qual = "Traph.get_webentity_by_prefix"
+
+    def setups(self, ex):
+        p = Path()
+        for ax in axioms():
+            p.assume(ax)
+        mk_world(p)
+        trie = p.new_obj("LRUTrie", {})
+        t = p.new_obj("Traph", {"lru_trie": trie, "encoding": "utf-8"})
+        yield p, t, [PFX(0)], {}, "any"
+
+    def check(self, ex, p0, res, tag):
+        for p1, kind, val in res:
+            ex.oblige(p1, "one-lookup-of-the-given-prefix", z3.And(p1.w["__al_n"] == 1, z3.Select(p1.w["__al_lru"], 0) == PFX(0)), None)
+            ex.oblige(p1, "nothing-written", z3.And(p1.w["__writes"] == 0, p1.w["__phase"] == 0, p1.w["__gen_n"] == 0), None)
+            if kind == "raise":
+                if val[0] != "TraphException":
+                    ex.oblige(p1, "raises-only-the-library's-error(%s)" % val[0], False, val[1])
+                    continue
+                ex.oblige(p1, "fails=>not-stored-or-not-a-webentity-prefix", z3.Not(z3.And(FOUND(0), TAKEN(0))), val[1])
+            else:
+                ex.oblige(p1, "answers=>stored-and-a-webentity-prefix", z3.And(FOUND(0), TAKEN(0)), None)
+                ex.oblige(p1, "answer==the-webentity-attached-to-that-prefix", to_z3(val) == WE_OF(0), None)
+
+
 def install(lib):
+    lib.loop_spec("Traph.delete_webentity::for#0", LoopSpec(del_scan_inv, havoc=del_scan_havoc, world=WORLD))
+    lib.loop_spec("Traph.delete_webentity::for#2", LoopSpec(del_unset_inv, havoc=del_unset_havoc, world=("__att", "__writes", "__cur")))
     lib.methods[("dict", "update")] = dict_update
     lib.methods[("dict", "items")] = dict_items
     lib.methods[("dict", "keys")] = dict_keys
     lib.methods[("FreeItems", "__iter__")] = free_items_iter
     lib.loop_spec("Traph.__add_prefixes::for#0", LoopSpec(scan_inv, havoc=scan_havoc, world=WORLD))
     lib.loop_spec("Traph.__add_prefixes::for#1", LoopSpec(attach_inv, havoc=attach_havoc, world=("__att", "__writes", "__cur")))
-    return [AddLruCallee(), HasWebentityCallee(), RefreshCallee(), SetWebentityCallee(), WriteCallee(), GenIdCallee(), AddPrefixes(), CreateWebentityPublic()]
+    return [AddLruCallee(), HasWebentityCallee(), RefreshCallee(), SetWebentityCallee(), WriteCallee(), GenIdCallee(), AddPrefixes(), CreateWebentityPublic(), LruNodeCallee(), WebentityCallee(), UnsetWebentityCallee(), DeleteWebentity(), WebentityByPrefix()]
 
 
 GROUP = "prefixes"
